@@ -309,7 +309,9 @@ func publicationCase(r *vk.Run, idx int) {
 			t.log("rpc CreatePublication(id=%q body=%q media=%q aud=%v)", reqID, want.body, want.media, aud)
 			var got *traits.Publication
 			var err error
-			if !t.try(op, func() { got, err = srv.CreatePublication(ctx, &traits.CreatePublicationRequest{Name: "dev", Publication: pub}) }) {
+			if !t.try(op, func() {
+				got, err = srv.CreatePublication(ctx, &traits.CreatePublicationRequest{Name: "dev", Publication: pub})
+			}) {
 				return
 			}
 			r.Eval(1)
